@@ -162,7 +162,7 @@ impl Topo {
 
     pub fn make_proc(&self, p: &str, rec: bool) -> Box<dyn anysystem::Process> {
         let kind = self.kinds.get(p).cloned().unwrap_or_default();
-        if kind == "py" || kind == "pyd" || kind == "pys" || kind == "pyr" {
+        if kind == "py" || kind == "pyd" || kind == "pys" || kind == "pyr" || kind == "pyo" || kind == "pyu" {
             let toks: Vec<Vec<String>> = self.rule_tokens.iter().filter(|(q, _)| q == p).map(|(_, w)| w.clone()).collect();
             let class = if kind == "py" {
                 "ScriptProc"
@@ -170,6 +170,10 @@ impl Topo {
                 "ScriptProcShared"
             } else if kind == "pyr" {
                 "ScriptProcRandom"
+            } else if kind == "pyo" {
+                "ScriptProcOrder"
+            } else if kind == "pyu" {
+                "ScriptProcUnpicklable"
             } else {
                 "ScriptProcDefault"
             };
@@ -291,6 +295,7 @@ pub fn make_config(
     rec: Rc<RefCell<Vec<String>>>,
 ) -> StrategyConfig {
     FIRST_NET.with(|n| *n.borrow_mut() = None);
+    crate::preds::reset_persistent();
     let inv = parse_cond(kv(ws, "inv"));
     let goal = parse_cond(kv(ws, "goal"));
     let prune = parse_cond(kv(ws, "prune"));
@@ -502,7 +507,7 @@ pub fn run() {
                 sc.topo
                     .procs
                     .push((ws[1].to_string(), ws[2].to_string(), ws[3..].contains(&"rec")));
-                for k in ["py", "pyd", "pys", "pyr", "canon"] {
+                for k in ["py", "pyd", "pys", "pyr", "pyo", "pyu", "canon"] {
                     if ws[3..].contains(&k) {
                         sc.topo.kinds.insert(ws[1].to_string(), k.to_string());
                     }
